@@ -381,7 +381,7 @@ def c09_injected(r, hooks=()):
 
 def c09_real(r):
     """Part B: real adaptive runs, monitors only (no script)."""
-    which = r.choice(['vdp_sdc', 'vdp_sdc', 'lorenz_sdc', 'dahlquist_sdc', 'vdp_rk', 'dahlquist_rk'])
+    which = r.choice(['vdp_sdc', 'vdp_sdc', 'lorenz_sdc', 'dahlquist_sdc', 'vdp_rk', 'dahlquist_rk', 'vdp_conv', 'dahlquist_conv', 'lorenz_conv'])
     P = r.choice([1, 1, 2, 3])
     K = r.randint(2, 4)
     e_tol = 10 ** r.uniform(-7, -3)
@@ -402,7 +402,20 @@ def c09_real(r):
     else:
         prob = {'class': 'testequation0d', 'params': {'lambdas': [[-r.uniform(0.5, 50.0), r.uniform(-5, 5)], [-r.uniform(0.1, 2.0), 0.0]], 'u0': 1.0}}
         dt, T = r.choice([0.05, 0.1, 0.25]), r.choice([1.0, 2.0])
-    if which.endswith('rk'):
+    level = {'dt': dt, 'restol': -1.0}
+    if which.endswith('conv'):
+        # step-size control for converged collocation problems: polynomial (interpolation) or extrapolation estimate
+        adname = r.choice(['AdaptivityPolynomialError', 'AdaptivityPolynomialError', 'AdaptivityExtrapolationWithinQ'])
+        sweeper = {'class': 'generic_implicit', 'params': {'num_nodes': r.choice([3, 4]) if adname != 'AdaptivityPolynomialError' else r.choice([2, 3, 4]), 'quad_type': 'RADAU-RIGHT', 'QI': r.choice(['LU', 'IE', 'MIN-SR-S'])}}
+        level = {'dt': dt, 'restol': 10 ** r.uniform(-11, -8)}
+        K = r.choice([12, 20, 40])
+        P = 1
+        ad.pop('dt_rel_min_slope', None)
+        if adname == 'AdaptivityExtrapolationWithinQ' and r.random() < 0.5:
+            ad['high_Taylor_order'] = True
+        if r.random() < 0.3:
+            ad['interpolate_between_restarts'] = False
+    elif which.endswith('rk'):
         sweeper = {'class': r.choice(['Cash_Karp', 'ESDIRK43', 'Heun_Euler']) if not which.startswith('lorenz') else 'ESDIRK43', 'params': {}}
         adname = 'AdaptivityRK'
         K = 1
@@ -415,7 +428,7 @@ def c09_real(r):
         'controller': {'mssdc_jac': False, 'predict_type': None, 'all_to_done': False},
         'problem': prob,
         'sweeper': sweeper,
-        'level': {'dt': dt, 'restol': -1.0},
+        'level': level,
         'step': {'maxiter': K},
         'transfer': None,
         'cc': [[adname, ad], ['BasicRestartingNonMPI', br]],
